@@ -441,8 +441,17 @@ func caller(skip int) string {
 			break
 		}
 	}
+	if t, ok := lineTables[file]; ok && line >= 0 && line < len(t) {
+		line = int(t[line]) // a line of the instrumented file: report the line of the original
+	}
 	return fmt.Sprintf("%s:%d", file, line)
 }
+
+var lineTables = map[string][]int32{}
+
+// RegisterLines is called by the instrumented package (a generated file): table[l] is the line of the
+// original file that line l of the instrumented file file stands for.
+func RegisterLines(file string, table []int32) { lineTables[file] = table }
 
 // ---------------------------------------------------------------- channels
 
@@ -969,6 +978,7 @@ func (x *exec) apply(tr trans) {
 		c.hash, c.sym = x.childHash(t, o, true)
 		c.vc = t.vc.clone()
 		c.vc.tick(c.id)
+		t.vc.tick(t.id) // what the parent does from here on is not ordered before the child
 		x.threads = append(x.threads, c)
 		x.running++ // the child runs until it parks in Begin
 	case opJoin:
